@@ -13,7 +13,7 @@ ENGINE = {'name': 'health',
  'serves': ['C11'],
  'rule': 'loopback upstream listeners switchable between refusing and accepting; scripted histories (connect with retries, close, switch, active '
          'probe, wait for expiry) for fail_duration 150/250/400 ms x max_fails 0..3, passive checks off, fail_duration 0, two-peer upstreams, '
-         'max_connections and unhealthy_connection_count limits, plus VERIF_N random histories of 5..10 steps (5..20 events) over 2..3 upstreams, '
+         'max_connections and unhealthy_connection_count limits, active and passive checks combined (outage with remembered dial failures, active check marks the peer down and up again while they are remembered, expiry, second outage; fail_duration 600..900 ms), plus VERIF_N random histories of 5..10 steps (5..20 events) over 2..3 upstreams, '
          'fail_duration 120..400 ms, try_duration 0/100/200 ms, try_interval 30 ms, first and round_robin; after every step the counters '
          '(fails, unhealthy, numConns) of every peer and available() of every upstream are read at an instant at least 45 ms away from every '
          'event and every expiry; retry scenarios with all upstreams refusing (try_duration 0/100/160/250 ms), upstreams dropping out one by one, '
